@@ -142,14 +142,23 @@ type Interp struct {
 	tail     []pendingOb
 	batchDepth int
 	curHarness bool
+	condObjs map[string]int
+	guarded  []guardedCell
 	fairSelect bool
 	assumedSet map[*Term]bool
 	trivial  int
 }
 
+type guardedCell struct {
+	obj      int
+	path, mu string
+	name     string
+}
+
 type Observe struct {
 	Name string
 	T    *Term
+	G    *Term
 }
 
 func NewInterp(prog *ssa.Program) *Interp {
@@ -737,6 +746,16 @@ func (a *Act) load(p PtrV) Value {
 func (a *Act) store(p PtrV, v Value) {
 	a.mayPanic(p.nilG, "nil dereference (store)")
 	a.record(p, true, a.atomicOp)
+	if len(a.in.guarded) > 0 && !a.in.isHarnessFn(a.fn) {
+		for _, al := range p.alts {
+			for _, gc := range a.in.guarded {
+				if gc.obj == al.obj && gc.path == fmt.Sprint(al.path) {
+					w, _ := a.lockState(gc.mu)
+					a.in.obligation(And(a.g, al.g), "lockset", "write to "+gc.name+" without holding its mutex in "+a.fn.String(), Not(w))
+				}
+			}
+		}
+	}
 	for _, al := range p.alts {
 		root := a.st.heap[al.obj].v
 		old := navigate(root, al.path)
